@@ -9,6 +9,7 @@ import (
 	"io/fs"
 	"io/ioutil"
 	"os"
+	"path/filepath"
 	"reflect"
 	"runtime"
 	"strings"
@@ -255,12 +256,27 @@ func unmarshalJsonFile(path string, i interface{}) (err error) {
 }
 
 func writeReader(path string, r io.Reader, perms fs.FileMode, compress bool) (err error) {
-	var out *os.File
-	var w io.WriteCloser
 
 	if compress && !strings.HasSuffix(path, compressedExtension) {
 		path = fmt.Sprintf("%s%s", path, compressedExtension)
 	}
+
+	// data is written to a temporary file which is renamed once complete, so
+	// that a crash cannot leave a truncated file in place of a valid one. Its
+	// name starts with a dot so it is never taken for an object.
+	tmp := filepath.Join(filepath.Dir(path), fmt.Sprintf(".%s.tmp", filepath.Base(path)))
+
+	if err = writeFile(tmp, r, perms, compress); err != nil {
+		os.Remove(tmp)
+		return
+	}
+
+	return os.Rename(tmp, path)
+}
+
+func writeFile(path string, r io.Reader, perms fs.FileMode, compress bool) (err error) {
+	var out *os.File
+	var w io.WriteCloser
 
 	if out, err = os.OpenFile(path, os.O_CREATE|os.O_TRUNC|os.O_RDWR, perms); err != nil {
 		return
